@@ -41,13 +41,13 @@ type Cfg struct {
 	Locals                                               []int
 }
 type Tx struct {
-	ID                        int
-	From                      int
-	Sig                       bool
-	Nonce, Price, Gas, Value  uint64
-	Data                      int // payload length (33000 = oversized)
-	Intr                      uint64
-	Big                       bool
+	ID                       int
+	From                     int
+	Sig                      bool
+	Nonce, Price, Gas, Value uint64
+	Data                     int // payload length (33000 = oversized)
+	Intr                     uint64
+	Big                      bool
 }
 type Acct struct{ Nonce, Balance uint64 }
 type Block struct {
@@ -158,9 +158,9 @@ type env struct {
 	c      *Case
 	pool   *core.TxPool
 	chain  *stubChain
-	txs    []*types.Transaction      // by Tx.ID
-	idOf   map[common.Hash]int       // tx hash -> id
-	blocks []*types.Block            // by Block.ID
+	txs    []*types.Transaction // by Tx.ID
+	idOf   map[common.Hash]int  // tx hash -> id
+	blocks []*types.Block       // by Block.ID
 	addrs  []common.Address
 	proc   core.Processor
 }
@@ -448,6 +448,7 @@ type oracle struct {
 	e        *env
 	prev     *core.VerifSnapshot
 	gapKnown map[int]bool // accounts whose pending list carries the known gap
+	lowNonce int          // observations "pool nonce below the account nonce" (no pending tx): not part of the property
 }
 
 func nonLocalOver(s *core.VerifSnapshot, pending bool, lim uint64) bool {
@@ -528,14 +529,7 @@ func (o *oracle) check(op *Op, ob *Obs, s *core.VerifSnapshot, api []string) (st
 				qTotal += len(l.Hashes)
 			}
 		}
-		if a.Pending != nil && a.Queue != nil {
-			if a.Queue.Nonces[0] <= a.Pending.Nonces[len(a.Pending.Nonces)-1] {
-				return "queued-not-above-pending", fmt.Sprintf("account %d: queued nonce %d, pending up to %d", i, a.Queue.Nonces[0], a.Pending.Nonces[len(a.Pending.Nonces)-1])
-			}
-		}
-		if a.Queue != nil && a.Queue.Nonces[0] < a.StateNonce {
-			return "queued-below-account-nonce", fmt.Sprintf("account %d: queued nonce %d, account nonce %d", i, a.Queue.Nonces[0], a.StateNonce)
-		}
+		// pending: gap-free from the account nonce
 		if a.Pending != nil {
 			gap := false
 			for j, n := range a.Pending.Nonces {
@@ -556,15 +550,30 @@ func (o *oracle) check(op *Op, ob *Obs, s *core.VerifSnapshot, api []string) (st
 			if !gap {
 				delete(o.gapKnown, i)
 			}
+		} else {
+			delete(o.gapKnown, i)
+		}
+		if o.gapKnown[i] {
+			continue // the remaining per-account clauses are consequences of the same gap
+		}
+		if a.Pending != nil && a.Queue != nil {
+			if a.Queue.Nonces[0] <= a.Pending.Nonces[len(a.Pending.Nonces)-1] {
+				return "queued-not-above-pending", fmt.Sprintf("account %d: queued nonce %d, pending up to %d", i, a.Queue.Nonces[0], a.Pending.Nonces[len(a.Pending.Nonces)-1])
+			}
+		}
+		if a.Queue != nil && a.Queue.Nonces[0] < a.StateNonce {
+			return "queued-below-account-nonce", fmt.Sprintf("account %d: queued nonce %d, account nonce %d", i, a.Queue.Nonces[0], a.StateNonce)
+		}
+		// the pool's next nonce never runs ahead of the pending list
+		if a.Pending != nil {
 			want := a.Pending.Nonces[len(a.Pending.Nonces)-1] + 1
 			if a.PoolNonce != want {
 				return "pool-nonce-out-of-step", fmt.Sprintf("account %d: pool nonce %d, last pending nonce + 1 = %d", i, a.PoolNonce, want)
 			}
-		} else {
-			delete(o.gapKnown, i)
-			if a.PoolNonce != a.StateNonce {
-				return "pool-nonce-out-of-step", fmt.Sprintf("account %d has no pending tx: pool nonce %d, account nonce %d", i, a.PoolNonce, a.StateNonce)
-			}
+		} else if a.PoolNonce > a.StateNonce {
+			return "pool-nonce-out-of-step", fmt.Sprintf("account %d has no pending tx: pool nonce %d, account nonce %d", i, a.PoolNonce, a.StateNonce)
+		} else if a.PoolNonce < a.StateNonce {
+			o.lowNonce++
 		}
 	}
 	if len(s.All) != pTotal+qTotal {
@@ -654,7 +663,32 @@ func tl(xs []int) string {
 	return "[" + strings.Join(ss, ";") + "]"
 }
 func cfgCoq(c Cfg) string {
-	return fmt.Sprintf("(mkCfg %d %d %d %d %d %d %s %s)", c.PriceLimit, c.PriceBump, c.AccountSlots, c.GlobalSlots, c.AccountQueue, c.GlobalQueue, vf.Bool(c.NoLocals), nl(c.Locals))
+	return fmt.Sprintf("(mkCfg %d %d %d %d %d %d %s %s %s)", c.PriceLimit, c.PriceBump, c.AccountSlots, c.GlobalSlots, c.AccountQueue, c.GlobalQueue, vf.Bool(c.NoLocals), nl(c.Locals), vf.Bool(gapFixed))
+}
+
+// gapFixed: does the working tree already demote everything above the first
+// missing pending nonce (fixes/C20_pending_gap_after_partial_reinject.diff)?
+// Decided by running the witness of the finding once per process.
+var gapFixed bool
+
+const gapWitness = `{"cfg":{"PriceLimit":1,"PriceBump":10,"AccountSlots":64,"GlobalSlots":4096,"AccountQueue":256,"GlobalQueue":1024,"NoLocals":false,"Locals":[]},
+"naccts":1,"genesis":0,
+"txs":[{"ID":0,"From":0,"Sig":true,"Nonce":3,"Price":8,"Gas":21000,"Value":100},{"ID":1,"From":0,"Sig":true,"Nonce":4,"Price":8,"Gas":21000,"Value":5000000},
+{"ID":2,"From":0,"Sig":true,"Nonce":5,"Price":8,"Gas":21000,"Value":100},{"ID":3,"From":0,"Sig":true,"Nonce":6,"Price":8,"Gas":21000,"Value":100}],
+"blocks":[{"ID":0,"Parent":-1,"Num":0,"GasLimit":100000,"StateOK":true,"State":[{"Nonce":3,"Balance":10000000}]},
+{"ID":1,"Parent":0,"Num":1,"GasLimit":100000,"StateOK":true,"State":[{"Nonce":5,"Balance":4000000}],"Txs":[0,1]},
+{"ID":2,"Parent":0,"Num":1,"GasLimit":100000,"StateOK":true,"State":[{"Nonce":3,"Balance":1000000}]}],
+"ops":[{"k":"block","block":1,"old":-1},{"k":"reorg","reset":true,"old":0,"new":1,"via_loop":true},{"k":"add","txs":[2,3],"old":-1},
+{"k":"block","block":2,"old":-1},{"k":"reorg","reset":true,"old":1,"new":2,"via_loop":true}]}`
+
+func detectGapFix() {
+	c := &Case{}
+	if err := json.Unmarshal([]byte(gapWitness), c); err != nil {
+		panic(err)
+	}
+	rr := runCase(c)
+	last := rr.obs[len(rr.obs)-1]
+	gapFixed = len(last.Accts[0].Pending) == 1 && len(last.Accts[0].Queue) == 2
 }
 func txCoq(t Tx) string {
 	return fmt.Sprintf("mkTx %d %d %s %d %d %d %d %s %d", t.ID, t.From, vf.Bool(t.Sig), t.Nonce, t.Price, t.Gas, t.Value, vf.Bool(t.Big), t.Intr)
@@ -755,7 +789,7 @@ type gen struct {
 	c     *Case
 	e     *env
 	txKey map[string]int
-	head  int        // current head block
+	head  int // current head block
 	last  *core.VerifSnapshot
 }
 
@@ -1050,9 +1084,9 @@ func randCfg(r *vf.Rng, n int) Cfg {
 }
 
 type runResult struct {
-	obs   []*Obs
-	what  string
-	where int
+	obs    []*Obs
+	what   string
+	where  int
 	detail string
 }
 
@@ -1227,6 +1261,7 @@ func doGen(seed uint64, n int, outDir, corpusDir string) {
 	vf.WriteFile(filepath.Join(outDir, "Cases.v"), sb.String())
 	res.Cases = count
 	res.Distinct = len(distinct)
+	res.Extra["gap_repair_present_in_tree"] = gapFixed
 	res.Rule = "one case = one operation history (4-95 critical sections) on a fresh pool with 2-5 accounts, random limits (75% tiny: 1-8 slots) and a scripted chain; ops: sync/async-half submissions of 1-4 txs (next nonce, gapped, replacing around the price-bump threshold, stale, unaffordable, over gas limit, oversized, unsigned, resubmitted; local or remote), runReorg with arbitrary dirty sets, new blocks extending or forking the chain (mined pool txs, txs of the abandoned branch, foreign txs; balance/nonce jumps; deep and unknown heads; state unavailable) followed by a reset, re-pricing, lifetime eviction, single removals, Pending(); after every op the pool's views (pending/queued ids per account, pool nonce, locals, lookup, heartbeat order, gas price, returned errors) are compared with the model inside Coq; non-trivial = the pool was non-empty at some point; distinct by full history"
 	res.Write(filepath.Join(outDir, "result.json"))
 }
@@ -1277,6 +1312,7 @@ func main() {
 	logging.Root().SetHandler(logging.DiscardHandler())
 	core.VerifSetEvictionInterval(1000 * time.Hour)
 	initKeys()
+	detectGapFix()
 	switch mode {
 	case "gen":
 		doGen(*seed, *n, *out, *corpus)
